@@ -32,8 +32,35 @@ pub const NAME_PREFIXES: [&str; 12] = [
     "./", "\u{feff}", "+", "/", "All/", "../../cat/", " ", "packages/All/", "\t", "../", "=", "@",
 ];
 
+/// Literals of the library's path / dependency code usable as one path segment.
+fn path_literals() -> &'static [&'static str] {
+    static L: std::sync::OnceLock<Vec<&'static str>> = std::sync::OnceLock::new();
+    L.get_or_init(|| {
+        crate::corpus::literal_strs(&["pkgpath", "depend", "scanindex", "pkgdb"])
+            .into_iter()
+            .filter(|s| s.len() <= 24 && !s.contains('/') && !s.contains('\0'))
+            .collect()
+    })
+}
+
+/// Literals of the library's name-handling code, as decorations of names.
+fn name_literals() -> &'static [&'static str] {
+    static L: std::sync::OnceLock<Vec<&'static str>> = std::sync::OnceLock::new();
+    L.get_or_init(|| {
+        crate::corpus::literal_strs(&["pkgname", "summary", "dewey", "pattern", "pkgdb"])
+            .into_iter()
+            .filter(|s| s.len() <= 24 && !s.contains('\n'))
+            .collect()
+    })
+}
+
 /// A name with a dictionary ending and/or beginning attached.
 pub fn decorate(r: &mut Rng, name: &str) -> String {
+    let lits = name_literals();
+    if !lits.is_empty() && r.chance(1, 6) {
+        let l = lits[r.below(lits.len())];
+        return if r.chance(1, 3) { format!("{l}{name}") } else { format!("{name}{l}") };
+    }
     match r.below(6) {
         0 => format!("{}{name}", r.pick(&NAME_PREFIXES)),
         1 => format!("{}{name}{}", r.pick(&NAME_PREFIXES), r.pick(&NAME_SUFFIXES)),
@@ -431,9 +458,11 @@ pub fn odd_path(r: &mut Rng) -> String {
                     _ => "/",
                 });
             }
-            match r.below(5) {
-                0 | 1 => s.push_str(*r.pick(&SEGS)),
-                2 => s.push_str(*r.pick(&REAL_NAMES)),
+            let lits = path_literals();
+            match r.below(11) {
+                0..=3 => s.push_str(*r.pick(&SEGS)),
+                4 | 5 => s.push_str(*r.pick(&REAL_NAMES)),
+                6 if !lits.is_empty() => s.push_str(lits[r.below(lits.len())]),
                 _ => s.push_str(*r.pick(&ODD_SEGS)),
             }
         }
@@ -616,6 +645,16 @@ pub const SPECIAL_DIR_NAMES: [&str; 10] = [
 fn dir_name(r: &mut Rng) -> String {
     if r.chance(1, 16) {
         return r.pick(&SPECIAL_DIR_NAMES).to_string();
+    }
+    // a file-name-like literal of the library's package-database code
+    if r.chance(1, 24) {
+        let lits: Vec<&'static str> = crate::corpus::literal_strs(&["pkgdb", "metadata"])
+            .into_iter()
+            .filter(|s| s.len() >= 2 && s.len() <= 32 && !s.contains(|c: char| c == '/' || c == '\0' || c.is_whitespace()) && *s != "." && *s != "..")
+            .collect();
+        if !lits.is_empty() {
+            return lits[r.below(lits.len())].to_string();
+        }
     }
     // several installed versions of one package, also versions that are equal
     // in value and differ in spelling (each directory is its own package)
